@@ -85,7 +85,12 @@ RECURSIVE SumCosts(_, _)
 SumCosts(c, S) == IF S = {} THEN 0 ELSE LET k == CHOOSE x \in S : TRUE IN c[k] + SumCosts(c, S \ {k})
 
 \* ttl.rs: storage_bucket(t) = unix_seconds(created_at + d) + 1 ; cleanup_bucket(now) = unix_seconds(now)
-StorageBucket(at, d) == ((at + d) \div SecUnits) + 1
+\* Huge stands for a TTL of Duration::MAX ("never": what get_ttl reports for an entry without TTL, handed back to
+\* insert_with_ttl); its deadline saturates and is filed under the last bucket, written LastBucket here (TLC's integers
+\* are 32-bit; the implementation's is i64::MAX).  Such an entry never expires.
+Huge == 2000000000
+LastBucket == 2147483647
+StorageBucket(at, d) == IF d = Huge THEN LastBucket ELSE ((at + d) \div SecUnits) + 1
 CleanupBucket(t) == t \div SecUnits
 Expired(e, t) == e.d > 0 /\ t - e.at >= e.d          \* Time::is_expired for an entry with a TTL
 ConflictOK(c, e) == c = 0 \/ c = e.cfl               \* store.rs: `conflict != 0 && conflict != item.conflict` rejects
@@ -286,7 +291,8 @@ GetMut(c, k) ==
 \* get_ttl: no is_closed check, no metrics.  -1 stands for Duration::MAX
 TtlOf(st, k, t) ==
     IF Lookup(st, k, t) = Nil THEN Nil
-    ELSE LET e == st[k[1]] IN IF e.d = 0 THEN -1 ELSE e.at + e.d - t
+    ELSE LET e == st[k[1]] IN IF e.d = 0 \/ (e.d = Huge /\ t = e.at) THEN -1   \* Duration::MAX - 0 is Duration::MAX again
+                              ELSE e.at + e.d - t
 GetTtl(c, k) ==
     /\ cli[c].pc = "idle"
     /\ Done(c, "get_ttl", OTtl(TtlOf(store, k, now)))
